@@ -29,9 +29,8 @@ def goToUInt64 (x : Float) : Int :=
 def mathPi : Float := Float.ofBits 0x400921FB54442D18
 
 /-- A perturbation of `sin`/`cos`: relative size and how its sign depends on the argument
-(0: fixed sign, 1: parity of the argument's bit pattern, 2: parity of the next bit), so that two
-calls with neighbouring arguments can be pushed in opposite directions, as independent rounding
-errors would. -/
+(0: fixed sign, m ≥ 1: a pseudo-random factor in [-1, 1] derived from the argument's bit pattern),
+so that calls with neighbouring arguments are pushed independently, as rounding errors would. -/
 structure Pert where
   ds : Float
   dc : Float
@@ -41,8 +40,10 @@ structure Pert where
 def Pert.sign (q : Pert) (x : Float) : Float :=
   match q.mode with
   | 0 => 1.0
-  | 1 => if x.toBits.toNat % 2 == 0 then 1.0 else -1.0
-  | _ => if (x.toBits.toNat / 2) % 2 == 0 then 1.0 else -1.0
+  | m =>
+    -- pseudo-random factor in {-1, -1/2, 0, 1/2, 1} per argument and mode
+    let h := (x.toBits.toNat * ((2 * m + 1) * 0x9E3779B97F4A7C15) % 18446744073709551616) / 1099511627776
+    (Float.ofNat (h % 5) - 2.0) / 2.0
 
 /-- native instance; `q`: perturbation of sin / cos (zero for the plain model). -/
 def nativeOps (q : Pert) : FloatOps Float where
@@ -56,6 +57,7 @@ def nativeOps (q : Pert) : FloatOps Float where
   le := fun a b => a ≤ b
   abs := Float.abs
   round := Float.round
+  ceil := Float.ceil
   sin := fun x => let s := Float.sin x; s + q.sign x * q.ds * (Float.abs s + 1.0e-3)
   cos := fun x => let c := Float.cos x; c + q.sign x * q.dc * (Float.abs c + 1.0e-3)
   sq := fun x => x * x
@@ -93,6 +95,7 @@ def linearParams : P (LinearP Float) := do
 
 def showExit : SineExit → String
   | .invalid => "invalid" | .behind => "behind" | .converged => "converged" | .unconverged => "unconverged"
+  | .bisected => "bisected" | .bracket => "bracket" | .nobracket => "nobracket"
 
 /-- trace digest: length, last time, last count, rolling hash, end reason. -/
 def showLoop (tr : List (Int × Nat)) (e : Nat) : String :=
@@ -106,7 +109,7 @@ def showLoop (tr : List (Int × Nat)) (e : Nat) : String :=
 def eps : Float := 8.8817841970012523e-16   -- 2^-50
 
 /-- Is the sine result sensitive to a few-ulp change of sin/cos?  Compares the plain run with
-eight perturbed runs (and two runs with every guess moved by ±1ns): a different exit, or a wait differing by more than `max(1ns, 5e-10·|w|)`. -/
+twelve perturbed runs (and two runs with every guess moved by ±1ns): a different exit, or a wait differing by more than `max(1ns, 5e-10·|w|)`. -/
 def sineIll (p : SineP Float) (t : Int) (hits : Nat) : Bool :=
   let r0 := sinePaceX plain p t hits
   let differs (r : PaceOut × SineExit) : Bool :=
@@ -129,7 +132,8 @@ def sineIll (p : SineP Float) (t : Int) (hits : Nat) : Bool :=
     | .stop, .stop => false
     | _, _ => true
   [(eps, eps, 0), (-eps, -eps, 0), (eps, -eps, 0), (-eps, eps, 0),
-   (eps, eps, 1), (-eps, -eps, 1), (eps, eps, 2), (-eps, -eps, 2)].any (fun (a, b, m) =>
+   (eps, eps, 1), (eps, eps, 2), (eps, eps, 3), (eps, eps, 4), (eps, eps, 5), (eps, eps, 6),
+   (eps, eps, 7), (eps, eps, 8)].any (fun (a, b, m) =>
     differs (sinePaceX (nativeOps ⟨a, b, m, 0⟩) p t hits))
   || differs1 (sinePaceX (nativeOps ⟨0.0, 0.0, 0, 1⟩) p t hits)
   || differs1 (sinePaceX (nativeOps ⟨0.0, 0.0, 0, -1⟩) p t hits)
